@@ -437,7 +437,8 @@ fn cmd_replay(args: &[String]) -> i32 {
 }
 
 fn main() {
-    // the parties' panics (none expected) must not garble stdout
+    // a panic inside a formatting call is caught and compared as an outcome; keep stderr quiet
+    std::panic::set_hook(Box::new(|_| {}));
     let args: Vec<String> = std::env::args().skip(1).collect();
     let code = match args.first().map(|s| s.as_str()) {
         Some("run") => cmd_run(&args[1..]),
